@@ -71,7 +71,7 @@ theorem good_setop (hP : P.Wire) (w : World) (p : PGhost ι) (hg : Good P hf w p
     have hlists := setop_lists_covered P hf f g' op w hw.capPos hcc (p.si (.own v)).S i.M su hcovA hcovM (fun hop => (hB0 hop su hsu').1)
     simp only [hoff] at hlists ⊢
     by_cases hp : i.promised = true
-    · have hk1 := hok.k1 hp
+    · have hk1 := (hok.k1 hp).1
       have hnepos : ∀ M' : List ι, Covers hf (setField (w.val f) 0 f.capBits (combine op f.capBits (w.bitsOf P f) (w.bitsOf P g'))) 0 f.cfg M' →
           Hashed hf f.seed M' → M' ≠ [] →
           (false = true ∨ popCount (setField (w.val f) 0 f.capBits (combine op f.capBits (w.bitsOf P f) (w.bitsOf P g'))) 0 f.capBits ≠ 0) := by
@@ -243,7 +243,7 @@ theorem good_setop (hP : P.Wire) (w : World) (p : PGhost ι) (hg : Good P hf w p
           cases hpp : i.promised with
           | true => rfl
           | false => have := hok.us hpp hm ht'; omega
-        have hk1 := hok.k1 hp
+        have hk1 := (hok.k1 hp).1
         obtain ⟨hcovS0, hhsS0, _⟩ := block_of_writer P hf w p hg v f i m hv hi hr hp ht' hsync
         have hcovA : Covers hf (w.val f) (f.off P) f.cfg (p.si (.mem m)).S := by rw [hX, hoff]; exact hcovS0
         have hcovM : Covers hf (w.val f) (f.off P) f.cfg i.M := by rw [hX]; exact hok.cov
